@@ -866,6 +866,42 @@ class ProcState(object):
         # of `bindings` because the baseline is captured after import; functions defined later are dropped above)
 
 
+def _procstate_dirty(self):
+    """Does anything in the package's module-level state differ from the import-time baseline?"""
+    out = []
+    for name, (mod, bindings, contents, fattrs, caches) in self.mods.items():
+        md = mod.__dict__
+        for k, v in contents.items():
+            try:
+                if md.get(k) != v:
+                    out.append("%s.%s" % (name, k))
+            except Exception:
+                pass
+        for k in caches:
+            try:
+                if md[k].cache_info().currsize:
+                    out.append("%s.%s (cache)" % (name, k))
+            except Exception:
+                pass
+        for k, d in fattrs.items():
+            fd = getattr(md.get(k), "__dict__", None)
+            if isinstance(fd, dict) and {a: b for a, b in fd.items() if a != "__wrapped__"} != {a: b for a, b in d.items() if a != "__wrapped__"}:
+                out.append("%s.%s (function attributes)" % (name, k))
+        for k in md:
+            if k not in bindings and not k.startswith("__"):  # (__warningregistry__ is interpreter bookkeeping)
+                out.append("%s.%s (new binding)" % (name, k))
+    for obj, orig in getattr(self, "defaults", []):
+        try:
+            if obj != orig:
+                out.append("<mutable default argument>")
+        except Exception:
+            pass
+    return out
+
+
+ProcState.dirty = _procstate_dirty
+
+
 class SimResult(object):
     """What the parent keeps of a Sim that ran in a forked child."""
 
